@@ -213,10 +213,9 @@ Proof.
 Qed.
 
 Lemma plain_unrenamed_correct : forall md tp c name ab,
-  (tp = true -> has_prefix md = true) ->
   bound_symbol md tp c name (c_symbol md c (Plain name) ab) None ab = c_symbol md c (Plain name) ab.
 Proof.
-  intros md tp c name ab _. unfold bound_symbol, link_attr. cbn [c_symbol].
+  intros md tp c name ab. unfold bound_symbol, link_attr. cbn [c_symbol].
   destruct (names_identical tp name (llvm_mangle md c name ab) c); reflexivity.
 Qed.
 
